@@ -423,6 +423,197 @@ theorem C03_refusal_kind (P : Params) (fuel : Nat) (s : S) (n : Nat) (kw : List 
         simp only [Bool.false_eq_true, if_false, Out.err.injEq] at href ⊢
         exact Or.inr (Or.inr ⟨s1, s2, heq, heq2, by simpa using hrd, href.symm, rfl⟩)
 
+/-! ## histories through serialisation
+
+`Data.Op.roundTrip scope comps` — `pickle.loads(pickle.dumps(obj))` of the node / graph whose channels
+are `scope`, the history going on with the copy — is one of the operations of `Data.Op`.  So
+`C03_recency`, `C03_no_bad_store_step` and `C03_no_bad_store` above already speak about histories with
+round trips at any point (the latter two under `CopyOk P`: pickle maps the marker to the marker and a
+copy has the type of its original), and every theorem stated for **all** states (`C03_fetch_spec`,
+`C03_fetch_value`, `C03_keeps_own`, `C03_gate`, `C03_called_with`, `C03_refusal_kind`,
+`C03_refused_clean`, `C03_bad_rejected`, `C03_forward_checked`, `C03_refused_assignment_noop`) holds of
+the copy as of any other state.  What remains is that the copy **is** the state the history had
+reached, as far as C03 can see — this is what the theorems below say, and where the current tree
+falls short (`C03_roundtrip_reverses_witness`). -/
+
+/-- a round trip that raises (`dumps` / `loads`) leaves the original untouched -/
+theorem C03_roundtrip_failed_noop (P : Params) (fuel : Nat) (s : S) (scope : List Nat) (comps : List Comp)
+    (h : (roundTrip P fuel s scope comps).2 ≠ none) : roundTrip P fuel s scope comps = (s, some .serial) := by
+  unfold roundTrip at h ⊢
+  split
+  · rename_i s' heq; rw [heq] at h; exact absurd rfl h
+  · rfl
+
+/-- no round trip — whatever the switches, successful or not — touches kinds, owners, hints,
+strictness, panels, `running` / `failed` or the call log; in particular nothing is called -/
+theorem C03_roundtrip_static (P : Params) (fuel : Nat) (s : S) (scope : List Nat) (comps : List Comp) :
+    RtFrame s (roundTrip P fuel s scope comps).1 :=
+  roundTrip_rtframe P fuel s scope comps
+
+/-- **no value is invented**, whatever the switches: after a round trip every channel holds the
+copy of a value some channel held before (its own, or — where a re-forged value link pushes — its
+sender's) -/
+theorem C03_roundtrip_no_invention (P : Params) (fuel : Nat) (s : S) (scope : List Nat) (comps : List Comp)
+    (hok : (roundTrip P fuel s scope comps).2 = none) :
+    ∀ c, ∃ c', (roundTrip P fuel s scope comps).1.val c = if c' ∈ scope then P.copyVal (s.val c') else s.val c' := by
+  unfold roundTrip at hok ⊢
+  have h := restoreAll_noNew P fuel s (rtClear P s scope).val (rtClear P s scope) comps (fun c => ⟨c, rfl⟩)
+  split
+  · rename_i s' heq
+    rw [heq] at h
+    intro c
+    obtain ⟨c', hc'⟩ := h c
+    exact ⟨c', by rw [hc']; rfl⟩
+  · rename_i heq
+    simp [heq] at hok
+
+/-- hence "no data" after the round trip means "no data" before, for some channel: where the marker
+comes back as the marker and data as data, a round trip cannot make a missing value appear -/
+theorem C03_roundtrip_marker (P : Params) (fuel : Nat) (s : S) (scope : List Nat) (comps : List Comp)
+    (hdata : ∀ v, v ≠ .nd → P.copyVal v ≠ .nd) (hmark : P.copyVal .nd = .nd)
+    (hok : (roundTrip P fuel s scope comps).2 = none) (c : Nat) :
+    ((roundTrip P fuel s scope comps).1.val c = .nd → ∃ c', s.val c' = .nd) ∧
+    ((roundTrip P fuel s scope comps).1.val c ≠ .nd → ∃ c', s.val c' ≠ .nd) := by
+  obtain ⟨c', hc'⟩ := C03_roundtrip_no_invention P fuel s scope comps hok c
+  rw [hc']
+  by_cases hsc : c' ∈ scope
+  · simp only [hsc, if_true]
+    constructor
+    · intro h
+      refine ⟨c', ?_⟩
+      cases hv : s.val c' with
+      | nd => rfl
+      | d k => exact absurd h (hdata _ (by rw [hv]; simp))
+      | nd2 => exact absurd h (hdata _ (by rw [hv]; simp))
+    · intro h
+      refine ⟨c', ?_⟩
+      intro hv
+      rw [hv, hmark] at h
+      exact h rfl
+  · simp only [hsc, if_false]
+    exact ⟨fun h => ⟨c', h⟩, fun h => ⟨c', h⟩⟩
+
+/-- with both kinds of value link re-forged by plain assignment, every channel of the pickled object
+holds exactly the copy of its own value, every other channel its own value -/
+theorem C03_roundtrip_values (P : Params) (fuel : Nat) (s : S) (scope : List Nat) (comps : List Comp)
+    (hin : P.cfg.pushIn = false) (hout : P.cfg.pushOut = false)
+    (hok : (roundTrip P fuel s scope comps).2 = none) (c : Nat) :
+    (roundTrip P fuel s scope comps).1.val c = if c ∈ scope then P.copyVal (s.val c) else s.val c := by
+  unfold roundTrip at hok ⊢
+  have h := restoreAll_val P fuel s (rtClear P s scope) comps hin hout
+  split
+  · rename_i s' heq
+    rw [heq] at h
+    simp only at h
+    rw [h]
+    rfl
+  · rename_i heq
+    simp [heq] at hok
+
+/-- a graph as pyiron builds it, seen from its composites: every data input of a child is listed
+once, is part of the pickled object, and each of its upstream outputs is found under its own labels
+among the children of the same composite -/
+structure Closed (s : S) (scope : List Nat) (comps : List Comp) : Prop where
+  nodup   : (allIns comps).Nodup
+  inScope : ∀ i ∈ allIns comps, i ∈ scope
+  isIn    : ∀ i ∈ allIns comps, s.kind i = .dataIn
+  resId   : ∀ C ∈ comps, ∀ i ∈ C.ins, ∀ o ∈ s.conns i, C.resOut.lookup o = some o
+
+/-- **the order survives** where the restoration reconnects in reverse stored order (`revIter`, the
+repair of KF-C07-1): every input of every composite comes back with exactly the connection list it
+had, newest first — so "most recently connected" means the same before and after -/
+theorem C03_roundtrip_keeps_order (P : Params) (fuel : Nat) (s : S) (scope : List Nat) (comps : List Comp)
+    (hrev : P.cfg.revIter = true) (hwf : WF P s) (hcl : Closed s scope comps)
+    (hok : (roundTrip P fuel s scope comps).2 = none) :
+    ∀ i ∈ allIns comps, (roundTrip P fuel s scope comps).1.conns i = s.conns i := by
+  have hA : ∀ i ∈ allIns comps, ∀ o ∈ s.conns i, o ∉ allIns comps := by
+    intro i hi o ho hm
+    have ht := hwf.conn.typed i o ho
+    simp only [toG] at ht
+    rw [hcl.isIn i hi, hcl.isIn o hm] at ht
+    simp [Kind.conj] at ht
+  unfold roundTrip at hok ⊢
+  split
+  · rename_i s' heq
+    have := restoreAll_order P fuel s hrev (allIns comps) hA (fun i _ => hwf.conn.nodup i) comps
+      (rtClear P s scope) s' (fun _ h => h) hcl.nodup hcl.resId
+      (fun i hi => by simp [rtClear, hcl.inScope i hi]) heq
+    exact this.1
+  · rename_i heq
+    simp [heq] at hok
+
+/-- **the gate and the call are the same before and after**: with the repaired restoration (order
+kept, links by plain assignment) and values copied faithfully, a function node of the graph is
+invoked by a run of the copy iff it is by a run of the original, and with the same arguments -/
+theorem C03_roundtrip_gate (P : Params) (fuel fuel' : Nat) (s : S) (scope : List Nat) (comps : List Comp)
+    (n : Nat) (hrev : P.cfg.revIter = true) (hin : P.cfg.pushIn = false) (hout : P.cfg.pushOut = false)
+    (hcopy : P.copyVal = id) (hwf : WF P s) (hcl : Closed s scope comps) (hp : Panel s n)
+    (hn : ∀ i ∈ s.ins n, i ∈ allIns comps)
+    (hok : (roundTrip P fuel' s scope comps).2 = none) :
+    let s' := (roundTrip P fuel' s scope comps).1
+    (runNode P (fuel + 1) s' n []).2.isInvoked = (runNode P (fuel + 1) s n []).2.isInvoked ∧
+    ((runNode P (fuel + 1) s n []).2.isInvoked = true →
+      (runNode P (fuel + 1) s' n []).1.calls = s.calls ++ [(n, (s.ins n).map (fetchVal s))] ∧
+      (runNode P (fuel + 1) s n []).1.calls = s.calls ++ [(n, (s.ins n).map (fetchVal s))]) := by
+  intro s'
+  have hfr : RtFrame s s' := roundTrip_rtframe P fuel' s scope comps
+  have hval : s'.val = s.val := by
+    funext c
+    have := C03_roundtrip_values P fuel' s scope comps hin hout hok c
+    simp only [s']
+    rw [this, hcopy]
+    simp
+  have hconns : ∀ i ∈ s.ins n, s'.conns i = s.conns i :=
+    fun i hi => C03_roundtrip_keeps_order P fuel' s scope comps hrev hwf hcl hok i (hn i hi)
+  have hwf' : WF P s' := roundTrip_pres (wf_pres P) fuel' s scope comps hwf
+  have hrecv : ∀ i ∈ s.ins n, s'.recv i = none := by
+    intro i hi
+    have hri := (hp.isIn i hi).2.2
+    simp only [s']
+    unfold roundTrip at hok ⊢
+    split
+    · rename_i s1 heq
+      have := restoreAll_recv P fuel' s (rtClear P s scope) comps i hri
+      rw [heq] at this
+      simp only at this
+      rw [this]
+      simp only [rtClear]
+      split
+      · rfl
+      · rw [hri]
+    · exact hri
+  have hp' : Panel s' n := by
+    refine ⟨?_, by rw [hfr.ins]; exact hp.nodup⟩
+    intro i hi
+    rw [hfr.ins] at hi
+    exact ⟨by rw [hfr.kind]; exact (hp.isIn i hi).1, by rw [hfr.owner]; exact (hp.isIn i hi).2.1, hrecv i hi⟩
+  have hfv : ∀ i ∈ s.ins n, fetchVal s' i = fetchVal s i := by
+    intro i hi
+    unfold fetchVal
+    rw [hconns i hi, hval]
+    rw [firstData_congr s s' (s.conns i) (fun a _ => by rw [hval])]
+  have hiff : (runNode P (fuel + 1) s' n []).2.isInvoked = true ↔ (runNode P (fuel + 1) s n []).2.isInvoked = true := by
+    rw [C03_gate_closed P fuel s' n hwf' hp', C03_gate_closed P fuel s n hwf hp, hfr.running, hfr.failed, hfr.ins]
+    constructor
+    · intro ⟨h1, h2, h3⟩
+      refine ⟨h1, h2, fun i hi => ?_⟩
+      have := h3 i hi
+      rw [hfv i hi] at this
+      exact ⟨this.1, by rw [← hfr.hinted, ← hfr.strict]; exact this.2⟩
+    · intro ⟨h1, h2, h3⟩
+      refine ⟨h1, h2, fun i hi => ?_⟩
+      have := h3 i hi
+      rw [hfv i hi]
+      exact ⟨this.1, by rw [hfr.hinted, hfr.strict]; exact this.2⟩
+  refine ⟨?_, ?_⟩
+  · cases h1 : (runNode P (fuel + 1) s' n []).2.isInvoked <;>
+      cases h2 : (runNode P (fuel + 1) s n []).2.isInvoked <;> simp_all
+  · intro hinv
+    refine ⟨?_, C03_called_with_closed P fuel s n hwf hp hinv⟩
+    rw [C03_called_with_closed P fuel s' n hwf' hp' (hiff.mpr hinv), hfr.calls, hfr.ins]
+    congr 3
+    exact List.map_congr_left hfv
+
 /-! ## concrete worlds (non-vacuity and the witness for the excluded operation) -/
 
 def exKind (c : Nat) : Kind := if c < 3 ∨ c = 20 ∨ c = 21 then .dataIn else .dataOut
@@ -502,6 +693,94 @@ theorem C03_activate_witness :
     w.strict 0 = true ∧ w.hinted 0 = true ∧ w.val 0 = .d 500 ∧ exP.admits 0 (.d 500) = false := by
   decide
 
+/-! ### concrete round trips -/
+
+/-- the parameters of `exP` with the repaired restoration -/
+def exPr : Params := { exP with cfg := Cfg.repaired }
+
+/-- node 0 = the consumer of `exInit` (inputs 0, 1, 2; outputs 3, 4, 5), nodes 1, 2 = sources with
+outputs 10, 11, all children of one workflow; input 0 was connected to 10 first, to 11 last -/
+def rtS : S :=
+  Data.run exPr 8 exInit [.set 10 (.d 1), .set 11 (.d 2), .connect 0 10, .connect 0 11, .set 1 (.d 100),
+    .set 2 (.d 5)]
+def rtScope : List Nat := [0, 1, 2, 3, 4, 5, 10, 11]
+def rtComps : List Comp :=
+  [{ ins := [0, 1, 2], resOut := [(3, 3), (4, 4), (5, 5), (10, 10), (11, 11)], mins := [], resIn := [],
+     couts := [], resMOut := [] }]
+
+/-- **the current tree reverses the priority**: input 0 was connected to 10, then to 11; both hold
+data; the original runs on the value of 11 (most recent), its unpickled copy on the value of 10
+(KF-C07-1 seen from C03: `_restore_connections_from_strings` reconnects newest-first and `connect`
+prepends) -/
+theorem C03_roundtrip_reverses_witness :
+    let r := roundTrip exP 8 rtS rtScope rtComps
+    exP.cfg = Cfg.pinned ∧ r.2 = none ∧ rtS.conns 0 = [11, 10] ∧ r.1.conns 0 = [10, 11] ∧
+    fetchVal rtS 0 = .d 2 ∧ fetchVal r.1 0 = .d 1 ∧
+    (runNode exP 8 rtS 0 []).1.calls = [(0, [.d 2, .d 100, .d 5])] ∧
+    (runNode exP 8 r.1 0 []).1.calls = [(0, [.d 1, .d 100, .d 5])] := by
+  decide
+
+-- with the repaired switches the hypotheses of `C03_roundtrip_keeps_order` / `C03_roundtrip_gate` hold in
+-- `rtS`, the round trip succeeds, and list, fetched value and call are those of the original
+example : Closed rtS rtScope rtComps := ⟨by decide, by decide, by decide, by decide⟩
+example : WF exPr rtS := run_pres (wf_pres exPr) 8 _ _ (Or.inl rfl) (init_wf exPr _ _ _ _ _ _)
+example : Panel rtS 0 := by
+  have hins : rtS.ins 0 = [0, 1, 2] := by decide
+  refine ⟨?_, by rw [hins]; decide⟩
+  intro i hi
+  rw [hins] at hi
+  have : i = 0 ∨ i = 1 ∨ i = 2 := by simpa using hi
+  rcases this with rfl | rfl | rfl <;> decide
+example : exPr.cfg.revIter = true ∧ exPr.cfg.pushIn = false ∧ exPr.cfg.pushOut = false ∧
+    (roundTrip exPr 8 rtS rtScope rtComps).2 = none ∧
+    (roundTrip exPr 8 rtS rtScope rtComps).1.conns 0 = [11, 10] ∧
+    (runNode exPr 8 (roundTrip exPr 8 rtS rtScope rtComps).1 0 []).1.calls = [(0, [.d 2, .d 100, .d 5])] := by
+  decide
+example : exPr.copyVal = id := rfl
+example : CopyOk exPr := copyOk_id exPr rfl
+-- a round trip that raises: output 11 is not found among the children (a connection across the border)
+example : (roundTrip exP 8 rtS rtScope
+    [{ ins := [0, 1, 2], resOut := [(10, 10)], mins := [], resIn := [], couts := [], resMOut := [] }]).2 =
+    some .serial := by decide
+-- round trips are operations of histories: `C03_recency` / `C03_no_bad_store` range over them
+example : ∀ op ∈ exOps ++ [Data.Op.roundTrip rtScope rtComps, .run 0 []], op.noActivate := by decide
+
+/-- pickle as it would be without `NotData.__reduce__`: the marker comes back as ANOTHER instance of
+its class, everything else as it was -/
+def exP2 : Params := { exP with copyVal := fun v => match v with | .nd => .nd2 | v => v }
+/-- `rtS` before input 2 got its value -/
+def rtT : S :=
+  Data.run exP 8 exInit [.set 10 (.d 1), .set 11 (.d 2), .connect 0 10, .connect 0 11, .set 1 (.d 100)]
+
+/-- **why the marker must come back as the marker** (`CopyOk.marker`, `C03_roundtrip_marker`): if a
+round trip maps `NOT_DATA` to a second instance of its class, a node whose input 2 was never given a
+value — refused with a ReadinessError before — is invoked after the round trip, on the look-alike;
+and the look-alike, not being the marker, now also sits in the strictly hinted channels -/
+theorem C03_second_marker_witness :
+    let r := roundTrip exP2 8 rtT rtScope rtComps
+    exP2.copyVal .nd ≠ .nd ∧ rtT.val 2 = .nd ∧ (runNode exP2 8 rtT 0 []).2 = .err .readiness ∧
+    r.2 = none ∧ r.1.val 2 = .nd2 ∧ (runNode exP2 8 r.1 0 []).2 = .invoked none ∧
+    (runNode exP2 8 r.1 0 []).1.calls = [(0, [.d 1, .d 100, .nd2])] ∧ r.1.val 3 = .nd2 := by
+  decide
+
+/-- the chain 21 → 20 → 0 of `exS` as two nested macros (innermost first); channel 0 was then set
+directly to 9, so it disagrees with its senders (7) -/
+def lkS : S := (Data.step exP 8 exS (.set 0 (.d 9))).1
+def lkScope : List Nat := [0, 1, 2, 3, 4, 5, 20, 21]
+def lkComps : List Comp :=
+  [{ ins := [], resOut := [], mins := [20], resIn := [(0, 0)], couts := [], resMOut := [] },
+   { ins := [], resOut := [], mins := [21], resIn := [(20, 20)], couts := [], resMOut := [] }]
+-- plain assignment (current tree for input links): values as they were, links back
+example : (roundTrip exP 8 lkS lkScope lkComps).2 = none ∧
+    ((roundTrip exP 8 lkS lkScope lkComps).1.val 0, (roundTrip exP 8 lkS lkScope lkComps).1.val 20,
+     (roundTrip exP 8 lkS lkScope lkComps).1.recv 21, (roundTrip exP 8 lkS lkScope lkComps).1.recv 20) =
+    (.d 9, .d 7, some 20, some 0) := by decide
+-- pushed links (the tree before fix 60885c9): the sender's value arrives in the receiver — a value some
+-- channel held before (`C03_roundtrip_no_invention`), not the receiver's own
+example : (roundTrip { exP with cfg := ⟨false, true, true⟩ } 8 lkS lkScope lkComps).1.val 0 = .d 7 := by decide
+-- a macro input that lost its receiver: `__getstate__` raises, nothing changes
+example : (roundTrip exP 8 (Data.step exP 8 lkS (.link 21 none)).1 lkScope lkComps).2 = some .serial := by decide
+
 end PwVerif.C03
 
 #print axioms PwVerif.C03.C03_fetch_spec
@@ -524,3 +803,12 @@ end PwVerif.C03
 #print axioms PwVerif.C03.C03_forward_checked
 #print axioms PwVerif.C03.C03_refusal_kind
 #print axioms PwVerif.C03.C03_activate_witness
+#print axioms PwVerif.C03.C03_roundtrip_failed_noop
+#print axioms PwVerif.C03.C03_roundtrip_static
+#print axioms PwVerif.C03.C03_roundtrip_no_invention
+#print axioms PwVerif.C03.C03_roundtrip_marker
+#print axioms PwVerif.C03.C03_roundtrip_values
+#print axioms PwVerif.C03.C03_roundtrip_keeps_order
+#print axioms PwVerif.C03.C03_roundtrip_gate
+#print axioms PwVerif.C03.C03_roundtrip_reverses_witness
+#print axioms PwVerif.C03.C03_second_marker_witness
